@@ -565,7 +565,7 @@ def main(args=None):
         parser.add_argument(
             "--arena-cache-size",
             type=int,
-            default=384 * 1024,
+            default=None,
             help=(
                 "Set the size of the arena cache memory area, in bytes. If specified, this option overrides the memory"
                 " mode attribute with the same name in a Vela configuration file (default: %(default)s)"
